@@ -1,5 +1,6 @@
 import LZ4V.Properties.C12
 import LZ4V.Proofs.FastXProof
+import LZ4V.HC.HC5
 /-!
 # C12 â€” dictionary compression round-trips: `LZ4_loadDict` / `LZ4_loadDictSlow` + `LZ4_compress_fast_continue`, as functions
 
@@ -50,5 +51,12 @@ theorem attached_dictionary_round_trips (hashOf : Array UInt8 â†’ Bool â†’ Nat â
       | cons x xs ih => simpa [histAt] using ih (hist H x)
     exact this [] before
   exact (run_parsed hashOf _ {} [] Inv_init (before.length + 1) addr data acc cap blk hop h [] _ (by rw [hh]; rfl) (Or.inl rfl)).decode
+
+/-- **HC dictionaries at the hash-chain levels** (`LZ4_loadDictHC`, any size): the block compressed after the load decodes given the dictionary bytes, for
+    EVERY match finder that honours its contract (model `LZ4V/HC` run on `dictionary ++ block`; the contract is checked on every answer of the real finders
+    in the recorded sessions) -/
+theorem hc_loaded_dictionary_round_trips (dict block : List UInt8) (o : HC.Oracle) (hO : HC.OracleOK (dict ++ block) o) (fuel : Nat) (blk : List UInt8)
+    (h : HC.compressH o dict block fuel = some blk) : decode dict blk = some block :=
+  HC.compressH_decodes dict block o hO fuel blk h
 
 end LZ4V.C12
